@@ -2,8 +2,10 @@
 (* C14 / C15 conformance.  One record per real run on a materialised tree:   *)
 (*   T         the tree with its name facts (see Discovery.tla)              *)
 (*   what      "find" | "clean"                                              *)
-(*   imported  ids of the tree's .py files in the order their top-level code *)
-(*             ran (each file logs its own import), __init__.py excluded     *)
+(*   imported  ids of the tree's .py / .pyc files in the order their top-    *)
+(*             level code ran (each file logs its own import; a compiled    *)
+(*             file loaded without source logs its own path), __init__      *)
+(*             files excluded                                               *)
 (*   listed    one id per test --list-tests printed, in that order: the file *)
 (*             of the module the test belongs to (a module is imported at    *)
 (*             most once per name, so a module that is discovered twice      *)
